@@ -20,6 +20,8 @@
 (*                      never be taken as (part of) the response to the next request: that request fails or is answered   *)
 (*                      by its own response only.  The strong reading (NoReuse, STaint why = surplus) is kept for surplus  *)
 (*                      in the SAME write as the last byte of the response, whatever the segmentation before it.           *)
+(*   LeaseBound         with leaseAcquireTimeout configured, the first attempt of a call is observed within the lease     *)
+(*                      time-out(s) after the Call (an attempt fails rather than waits past its configured time-out).      *)
 (*   TimeBound          every call returns within (budget+1)*(connectTimeout + 2*requestTimeout) + back-off + slack.   *)
 (* Choices where the statement is ambiguous (weaker reading): a method token that RFC 9110 does not register (e.g.     *)
 (* lower-case "get") may be treated as either class: (wire <= 1) \/ (attempts <= budget + 1).                          *)
@@ -33,21 +35,25 @@ Idem(m) == m \in {"GET", "HEAD", "PUT", "DELETE", "OPTIONS", "TRACE"}
 NonIdem(m) == m \in {"POST", "PATCH", "CONNECT"}
 Slack == 4000
 
-NoCfg == [ct |-> 0, rt |-> 0, bo |-> 1]
+LeaseSlack == 1500
+NoCfg == [ct |-> 0, rt |-> 0, bo |-> 1, lat |-> 0]
 Init == l = 1 /\ cfg = NoCfg /\ rq = <<>> /\ cn = <<>> /\ late = FALSE
 
 Known(r) == r \in DOMAIN rq
 KnownC(c) == c \in DOMAIN cn
 Upd(f, k, v) == (k :> v) @@ f
 
-EvBegin == /\ IsEv("Begin") /\ cfg' = [ct |-> Ev.ct, rt |-> Ev.rt, bo |-> Fld("bo", 1)] /\ rq' = <<>> /\ cn' = <<>> /\ late' = FALSE
+EvBegin == /\ IsEv("Begin") /\ cfg' = [ct |-> Ev.ct, rt |-> Ev.rt, bo |-> Fld("bo", 1), lat |-> Fld("lat", 0)] /\ rq' = <<>> /\ cn' = <<>> /\ late' = FALSE
 EvReset == /\ IsEv("Reset") /\ cfg' = NoCfg /\ rq' = <<>> /\ cn' = <<>> /\ late' = FALSE
 EvCall == /\ IsEv("Call")
-          /\ rq' = Upd(rq, Ev.r, [m |-> Ev.m, b |-> Ev.b, att |-> 0, wire |-> 0, framed |-> FALSE, after |-> 0, ms |-> 0, own |-> TRUE])
+          /\ rq' = Upd(rq, Ev.r, [m |-> Ev.m, b |-> Ev.b, att |-> 0, wire |-> 0, framed |-> FALSE, after |-> 0, ms |-> 0, own |-> TRUE,
+                                 t0 |-> Fld("t", 0), fw |-> -1])
           /\ UNCHANGED <<cfg, cn, late>>
 \* one more observed attempt of request r
 Bump(r, isWire) == IF Known(r)
                    THEN rq' = [rq EXCEPT ![r] = [@ EXCEPT !.att = @ + 1, !.wire = @ + (IF isWire THEN 1 ELSE 0),
+                                                              \* fw: ms from the Call to its first observed attempt
+                                                              !.fw = IF @ < 0 THEN Fld("t", 0) - rq[r].t0 ELSE @,
                                                               !.after = @ + (IF rq[r].framed THEN 1 ELSE 0)]]
                    ELSE UNCHANGED rq
 EvCConn == /\ IsEv("CConn")
@@ -83,7 +89,7 @@ Pow2(n) == IF n <= 0 THEN 1 ELSE 2 * Pow2(n - 1)
 RECURSIVE Backoff(_)
 Backoff(b) == IF b <= 0 THEN 0 ELSE Backoff(b - 1) + 100 * Pow2(b - 1) + 100
 \* bo: the driver divides the back-off sleeps of the calling thread by cfg.bo (large budgets in affordable real time)
-Bound(r) == (rq[r].b + 1) * (cfg.ct + 2 * cfg.rt) + (Backoff(rq[r].b) \div cfg.bo) + Slack
+Bound(r) == (rq[r].b + 1) * (cfg.lat + cfg.ct + 2 * cfg.rt) + (Backoff(rq[r].b) \div cfg.bo) + Slack
 
 AtMostOnce == \A r \in DOMAIN rq :
                  /\ NonIdem(rq[r].m) => rq[r].wire <= 1
@@ -92,5 +98,13 @@ AttemptBound == \A r \in DOMAIN rq : Idem(rq[r].m) => rq[r].att <= rq[r].b + 1
 FramingNotRetried == late \/ \A r \in DOMAIN rq : rq[r].after = 0
 NoReuse == \A c \in DOMAIN cn : ~cn[c].reused
 OwnResponse == \A r \in DOMAIN rq : rq[r].own
+\* With a lease time-out configured (Begin.lat > 0) an attempt that has to wait for the lease fails with an error after lat
+\* instead of waiting on: before the FIRST observed attempt of a call (its connect() or its request bytes on a cached
+\* connection) there is nothing but lease waits of at most lat each (at most budget + 1 of them, with the back-off between
+\* them), so it is observed no later than that after the Call.  (A call whose lease waits all time out makes no attempt:
+\* nothing to judge here; TimeBound bounds its duration.)  lat is configured far below requestTimeout, so a waiter that
+\* sits out the stall of the lease holder's peer and then transmits is late by more than LeaseSlack.
+LeaseBound == cfg.lat > 0 => \A r \in DOMAIN rq :
+                 rq[r].fw <= (rq[r].b + 1) * cfg.lat + (Backoff(rq[r].b) \div cfg.bo) + LeaseSlack
 TimeBound == \A r \in DOMAIN rq : rq[r].ms <= Bound(r)
 ===============================================================================
